@@ -21,7 +21,11 @@ RULE = (
     "y in gamma(b): op(x,y) (SMT-LIB semantics, independent evaluator) is a member of gamma(result) computed from (bits, stride, lb, ub) "
     "only; comparisons: every truth value that occurs is in the BoolResult; result width as specified. Exempt: pairs with divisor 0 "
     "(only those pairs), exceptions of division/remainder whose divisor interval contains 0. At wide widths members are sampled (both "
-    "bounds, neighbours, random lattice points). Non-trivial: neither operand is a singleton or TOP, or an operand wraps / straddles a "
+    "bounds, neighbours, random lattice points). Chains (widths 3 and 4): every first operation over the canonical operands; each distinct result that "
+    "is NOT a canonical form (upper bound off the stride lattice, stride inconsistent with the bounds) is fed, as the object returned, to "
+    "every unary / extension / extraction operation and to every binary operation and comparison against a fixed set of second operands on "
+    "either side; the second result must contain op2 of every member of the intermediate (sdiv excluded on both positions: open finding). "
+    "Non-trivial: neither operand is a singleton or TOP, or an operand wraps / straddles a "
     "pole; enumerated cases are distinct by construction and counted, generated ones by SHA-1."
 )
 ASSUMPTIONS = [
@@ -172,6 +176,9 @@ def run_one(case, members_a=None, members_b=None):
 
 
 def replay(case):
+    if case.get("chain"):
+        f = run_chain(case)
+        return [f] if f else []
     f, _ = run_one(case, case.get("xs"), case.get("ys"))
     return [f] if f else []
 
@@ -194,6 +201,10 @@ def shards(tier, seed):
                 out.append({"mode": "enum-pairs", "bits": 4, "ops": [op], "part": part, "parts": 4})
     for i in range(8 if tier == "quick" else 16):
         out.append({"mode": "random", "i": i, "n": 700 if tier == "quick" else 40000, "hseed": seed * 1000 + 2100 + i})
+    firsts = [o for o in (*BINARY, "concat", *UNARY, "zero_extend", "sign_extend", "extract") if o not in CHAIN_EXCLUDED]
+    for bits in (3, 4):
+        for o in firsts:
+            out.append({"mode": "chain", "bits": bits, "op1": o, "cap": 40 if tier == "quick" else 400})
     return out
 
 
@@ -315,6 +326,169 @@ def _enum_unary(shard, ctx):
     return total, nt_total
 
 
+# ------------------------------------------------------------------ chains: an operation applied to what another one returned
+
+CHAIN_EXCLUDED = ("sdiv",)  # the open finding: its wrong results would resurface through every second operation
+_SECOND_OPERANDS = {}
+
+
+def _second_operands(n):
+    """A small fixed set of canonical second operands for the second operation of a chain."""
+    if n not in _SECOND_OPERANDS:
+        mod = 1 << n
+        ts = {(0, 0, 0), (0, 1, 1), (0, mod - 1, mod - 1), (0, mod >> 1, mod >> 1), (1, 0, mod - 1), (1, 1, 2 % mod), (1, mod - 2, 1 % mod), (2, 0, mod - 2), (2, 1, mod - 1)}
+        if n >= 3:
+            ts |= {(3, 1, 7), (4, 1, 5), (1, (mod >> 1) - 1, mod >> 1)}
+        canon = set(sg.canonical(n)) if n <= 4 else None
+        _SECOND_OPERANDS[n] = sorted(t for t in ts if canon is None or t in canon)
+    return _SECOND_OPERANDS[n]
+
+
+def _first_step(case):
+    """-> the StridedInterval the first operation of a chain case returns (the object itself, nothing normalised)."""
+    n = case["bits"]
+    a = sg.make(n, tuple(case["a"]))
+    op1 = case["op1"]
+    if op1 in BINARY or op1 == "concat":
+        b = sg.make(n, tuple(case["b"]))
+        return (lambda p, q: p.concat(q))(a, b) if op1 == "concat" else BINARY[op1][0](a, b)
+    if op1 in UNARY:
+        return UNARY[op1][0](a)
+    p1 = case["param1"]
+    spec = next(s_ for s_ in param_ops(n) if s_[0] == op1 and (list(s_[1]) if isinstance(s_[1], tuple) else s_[1]) == (list(p1) if isinstance(p1, (list, tuple)) else p1))
+    return spec[2](a)
+
+
+def _is_canonical(r):
+    if r.is_empty:
+        return True
+    mod = 1 << r.bits
+    d = (r.upper_bound - r.lower_bound) % mod
+    if r.stride == 0:
+        return d == 0
+    return d != 0 and d % r.stride == 0
+
+
+def run_chain(case):
+    """-> failure (fp, obs) or None.  The second operation must be sound for the members of what the first one returned."""
+    from claripy.backends.backend_vsa.bool_result import BoolResult
+    from claripy.backends.backend_vsa.strided_interval import StridedInterval
+
+    try:
+        r = _first_step(case)
+    except Exception:  # noqa: BLE001 - the first step alone is the single-operation check's business
+        return None
+    if not isinstance(r, StridedInterval) or r.bits > 10:
+        return None
+    n = r.bits
+    xs = sg.members(sg.gamma_mask(r))
+    op2 = case["op2"]
+    mid = sg.describe(r)
+    fpx = f"chain:{case['op1']}>{op2}"
+    if op2 in BINARY or op2 in COMPARE:
+        z = sg.make(n, tuple(case["z"]))
+        zs = sg.members(sg.gamma_mask(z))
+        fn, conc = BINARY.get(op2) or COMPARE[op2]
+        left = case.get("side", "l") == "l"
+        call = (lambda: fn(r, z)) if left else (lambda: fn(z, r))
+        values = [conc(x, y, n) if left else conc(y, x, n) for x in xs for y in zs]
+        wres = n
+    elif op2 in UNARY:
+        fn1, conc1 = UNARY[op2]
+        call = lambda: fn1(r)  # noqa: E731
+        values = [conc1(x, n) for x in xs]
+        wres = n
+    else:
+        p2 = case["param2"]
+        spec = next(s_ for s_ in param_ops(n) if s_[0] == op2 and (list(s_[1]) if isinstance(s_[1], tuple) else s_[1]) == (list(p2) if isinstance(p2, (list, tuple)) else p2))
+        call = lambda: spec[2](r)  # noqa: E731
+        values = [spec[3](x) for x in xs]
+        wres = spec[4]
+    try:
+        r2 = call()
+    except Exception as e:  # noqa: BLE001
+        if op2 in DIVLIKE and (0 in xs or ("z" in case and 0 in sg.members(sg.gamma_mask(sg.make(n, tuple(case["z"])))))):
+            return None
+        return (f"{fpx}:exception:{type(e).__name__}", {"intermediate": mid, "result": f"exc:{type(e).__name__}", "exc": repr(e)[:160]})
+    res = _describe_result(r2)
+    if op2 in COMPARE:
+        if not isinstance(r2, BoolResult):
+            return (f"{fpx}:wrong-result-type", {"intermediate": mid, "result": res})
+        have = set(r2.value)
+        for v in values:
+            if v not in have:
+                return (f"{fpx}:wrong-truth-value", {"intermediate": mid, "result": res, "missing": v})
+        return None
+    if not isinstance(r2, StridedInterval):
+        return (f"{fpx}:wrong-result-type", {"intermediate": mid, "result": res})
+    if r2.bits != wres:
+        return (f"{fpx}:wrong-width", {"intermediate": mid, "result": res, "expected_bits": wres})
+    got = sg.gamma_mask(r2) if wres <= 12 else None
+    for v in values:
+        if v is None:
+            continue
+        if (got is not None and not (got >> v) & 1) or (got is None and not sg.contains(r2, v)):
+            return (f"{fpx}:missing-member", {"intermediate": mid, "result": res, "missing": v})
+    return None
+
+
+def _chain_shard(shard, ctx):
+    """First operations over canonical operands; every distinct result that is NOT a canonical form (upper bound off the stride
+    lattice, stride inconsistent with the bounds) goes through every unary / parametrised operation and through every binary
+    operation and comparison against a fixed set of second operands, on either side."""
+    n = shard["bits"]
+    op1 = shard["op1"]
+    forms = sg.canonical(n)
+    seen = {}
+    firsts = []
+    if op1 in BINARY or op1 == "concat":
+        step = 1 if n <= 3 else 7
+        k = 0
+        for ta in forms:
+            for tb in forms:
+                k += 1
+                if k % step:
+                    continue
+                firsts.append({"op1": op1, "bits": n, "a": list(ta), "b": list(tb)})
+    elif op1 in UNARY:
+        firsts = [{"op1": op1, "bits": n, "a": list(ta)} for ta in forms]
+    else:
+        firsts = [{"op1": op1, "bits": n, "a": list(ta), "param1": list(p) if isinstance(p, tuple) else p} for ta in forms for nm, p, *_ in param_ops(n) if nm == op1]
+    n_first = 0
+    for c1 in firsts:
+        if ctx.out_of_time():
+            return
+        try:
+            r = _first_step(c1)
+        except Exception:  # noqa: BLE001
+            continue
+        n_first += 1
+        if not hasattr(r, "lower_bound") or r.bits > 8 or _is_canonical(r):
+            continue
+        key = (r.bits, r.stride, r.lower_bound, r.upper_bound)
+        if key not in seen and len(seen) < shard["cap"]:
+            seen[key] = c1
+    ctx.count("chain_first_results", n_first)
+    ctx.count("chain_noncanonical_intermediates", len(seen))
+    for key, c1 in seen.items():
+        w = key[0]
+        seconds = [{"op2": nm} for nm in UNARY] + [{"op2": nm, "param2": list(p) if isinstance(p, tuple) else p} for nm, p, *_ in param_ops(w)]
+        for nm in (*BINARY, *COMPARE):
+            if nm in CHAIN_EXCLUDED:
+                continue
+            for z in _second_operands(w):
+                seconds.append({"op2": nm, "z": list(z), "side": "l"})
+                seconds.append({"op2": nm, "z": list(z), "side": "r"})
+        for c2 in seconds:
+            if ctx.out_of_time():
+                return
+            case = {"chain": True, **c1, **c2}
+            f = run_chain(case)
+            ctx.case(case, True, ["mode:chain", f"op1:{op1}", f"op2:{c2['op2']}"], sample={"first": c1, "intermediate": f"<{key[0]}>{key[1]}[{key[2]},{key[3]}]", "second": c2})
+            if f is not None:
+                ctx.fail(f[0], case, f[1])
+
+
 @st.composite
 def wide_si(draw, n):
     mod = 1 << n
@@ -395,6 +569,9 @@ def run_shard(shard, ctx):
         if len(ctx.samples) < 2:
             forms = sg.canonical(shard["bits"])
             ctx.samples.append({"op": shard["ops"][0], "bits": shard["bits"], "a": list(forms[len(forms) // 3]), "b": list(forms[len(forms) // 2])})
+        return
+    if mode == "chain":
+        _chain_shard(shard, ctx)
         return
     if mode == "enum-unary":
         total, nt = _enum_unary(shard, ctx)
